@@ -172,11 +172,12 @@ C03_TransferIsChoice(B, k) ==
   /\ \A i \in Transfers(B, k) : /\ i = MaxOf(Txs(B, k))
                                  /\ Sel(B, k) # {} /\ MinOf(Sel(B, k)) < i /\ H(B, k)[i].p.target = Chosen(B, k)
 \* a chosen target is transferred to
+\* (a call is recorded when it is made; a connection that was timed out for a missed keep-alive may have ended before the call returned)
 C03_ChoiceIsTransferred(B, k) ==
-  (Ended(B[k]) /\ Sel(B, k) # {} /\ Chosen(B, k) \notin {"none","err"}) => Transfers(B, k) # {}
+  (Ended(B[k]) /\ B[k].result # "MissedKeepAlive" /\ Sel(B, k) # {} /\ Chosen(B, k) \notin {"none","err"}) => Transfers(B, k) # {}
 \* no target: Disconnect with the message for the reported locale, no Transfer
 C03_NoTargetDisconnect(B, k) ==
-  (Ended(B[k]) /\ Sel(B, k) # {} /\ Chosen(B, k) = "none") =>
+  (Ended(B[k]) /\ B[k].result # "MissedKeepAlive" /\ Sel(B, k) # {} /\ Chosen(B, k) = "none") =>
         /\ Transfers(B, k) = {} /\ ClientInfos(B, k) # {} /\ Txs(B, k) # {}
         /\ LET p == H(B, k)[MaxOf(Txs(B, k))].p IN
            /\ p.k = "Disconnect"
